@@ -184,6 +184,14 @@ unsafe impl RcObject for Item {
     fn pop_edges(&mut self, _: &mut Vec<Rc<Self>>) {}
 }
 
+#[derive(Debug, PartialEq, PartialOrd)]
+struct PItem {
+    v: f64,
+}
+unsafe impl RcObject for PItem {
+    fn pop_edges(&mut self, _: &mut Vec<Rc<Self>>) {}
+}
+
 #[repr(align(64))]
 #[derive(Debug, PartialEq, Eq, PartialOrd, Ord, Hash)]
 struct Big {
@@ -226,7 +234,32 @@ fn tag_public<T: RcObject + std::fmt::Debug + PartialEq + 'static>(acc: &mut Acc
             if !ok {
                 acc.fail("snapshot-sees-stamp", format!("{}: loaded Snapshot (stamp {}) differs from the stored pointer: tag {:#x} fmt {:p}", name, cv::word_stamp(cv::snapshot_word(&s)), s.tag(), s));
             }
-            let rc = s.counted();
+            // every way of dereferencing lands on the same address, stamp or not
+            let shared = s.as_ref().map(|r| r as *const T as usize);
+            let via_snapshot_mut = unsafe { s.as_mut() }.map(|r| r as *mut T as usize);
+            let via_snapshot_deref = unsafe { s.deref() } as *const T as usize;
+            let via_snapshot_deref_mut = unsafe { s.deref_mut() } as *mut T as usize;
+            let mut rc = s.counted();
+            let via_rc = rc.as_ref().map(|r| r as *const T as usize);
+            let via_rc_mut = unsafe { rc.as_mut() }.map(|r| r as *mut T as usize);
+            let via_rc_deref_mut = unsafe { rc.deref_mut() } as *mut T as usize;
+            let base_addr = obj.as_ref().map(|r| r as *const T as usize);
+            if shared != base_addr
+                || via_snapshot_mut != base_addr
+                || Some(via_snapshot_deref) != base_addr
+                || Some(via_snapshot_deref_mut) != base_addr
+                || via_rc != base_addr
+                || via_rc_mut != base_addr
+                || Some(via_rc_deref_mut) != base_addr
+            {
+                acc.fail(
+                    "deref-sees-stamp-or-tag",
+                    format!(
+                        "{}: with stamp {} and tag {:#x} the dereference paths give {:x?} {:x?} {:#x} {:#x} {:x?} {:x?} {:#x}, the object is at {:x?}",
+                        name, cv::word_stamp(cv::snapshot_word(&s)), want, shared, via_snapshot_mut, via_snapshot_deref, via_snapshot_deref_mut, via_rc, via_rc_mut, via_rc_deref_mut, base_addr
+                    ),
+                );
+            }
             if rc.is_null() || rc.tag() != want || rc.as_ref() != obj.as_ref() || format!("{:p}", rc) != base_fmt || !rc.ptr_eq(&obj.clone().with_tag(want)) {
                 acc.fail("rc-sees-stamp", format!("{}: counted Rc differs from the stored pointer", name));
             }
@@ -468,8 +501,8 @@ fn hash_of<T: Hash>(t: &T) -> u64 {
 fn c19() -> PureResult {
     let mut r = PureResult {
         exhaustive: true,
-        rule: "all pairs and triples of 9 pointer kinds {null, null|tag, a, a|tag, a under another stamp, b (equal contents), c (smaller), d (larger), a again} for Rc and for Snapshot: ==, partial_cmp, cmp and hash equal those of Option<&T>; Eq/Ord laws; ptr_eq = same object and same tag regardless of stamp".into(),
-        bounds: json!({"kinds": 9, "pairs": 81, "triples": 729}),
+        rule: "all pairs and triples of 9 pointer kinds {null, null|tag, a, a|tag, a under another stamp, b (equal contents), c (smaller), d (larger), a again} for Rc and for Snapshot: ==, partial_cmp, cmp and hash equal those of Option<&T>; Eq/Ord laws; ptr_eq = same object and same tag regardless of stamp; the pair relations again for a partially ordered, non-reflexive referent (NaN)".into(),
+        bounds: json!({"kinds": 9, "pairs": 81, "triples": 729, "partially_ordered_kinds": 9}),
         ..Default::default()
     };
     let mut acc = Acc::new("C19", "eq-ord-hash");
@@ -562,6 +595,39 @@ fn c19() -> PureResult {
         if ptrs[i].0 != ptrs[i].0 || ptrs[i].0.cmp(&ptrs[i].0) != std::cmp::Ordering::Equal {
             acc.fail("rc-reflexivity", format!("kind {}: not equal to itself", i));
         }
+    }
+    // a referent that is only partially ordered and not equal to itself (NaN): identity must not
+    // leak into ==, partial_cmp, <, <=
+    {
+        let nan = Rc::new(PItem { v: f64::NAN });
+        let nan2 = Rc::new(PItem { v: f64::NAN });
+        let one = Rc::new(PItem { v: 1.0 });
+        let two = Rc::new(PItem { v: 2.0 });
+        let pcell: AtomicRc<PItem> = AtomicRc::null();
+        let nan_stamped = {
+            let g2 = circ::cs();
+            pcell.store(nan.clone(), SeqCst, &g2);
+            drop(g2);
+            pcell.swap(Rc::null(), SeqCst)
+        };
+        let pp: Vec<Rc<PItem>> = vec![Rc::null(), nan.clone(), nan.clone(), nan.clone().with_tag(1), nan_stamped, nan2.clone(), one.clone(), two.clone(), one.clone()];
+        let g2 = circ::cs();
+        let ps: Vec<circ::Snapshot<PItem>> = pp.iter().map(|p| p.snapshot(&g2)).collect();
+        for i in 0..pp.len() {
+            for j in 0..pp.len() {
+                acc.case(h2(i as u64 + 5000, j as u64));
+                let (x, y) = (&pp[i], &pp[j]);
+                let (ox, oy) = (x.as_ref(), y.as_ref());
+                if (x == y) != (ox == oy) || x.partial_cmp(y) != ox.partial_cmp(&oy) || (x < y) != (ox < oy) || (x <= y) != (ox <= oy) || (x >= y) != (ox >= oy) {
+                    acc.fail("rc-partial-order", format!("partially ordered referent, kinds {} and {}: Rc gives == {} / {:?}, Option<&T> gives == {} / {:?}", i, j, x == y, x.partial_cmp(y), ox == oy, ox.partial_cmp(&oy)));
+                }
+                let (sx, sy) = (ps[i], ps[j]);
+                if (sx == sy) != (ox == oy) || sx.partial_cmp(&sy) != ox.partial_cmp(&oy) || (sx <= sy) != (ox <= oy) {
+                    acc.fail("snapshot-partial-order", format!("partially ordered referent, kinds {} and {}: Snapshot relations differ from Option<&T>", i, j));
+                }
+            }
+        }
+        drop(g2);
     }
     acc.sample(json!({"kinds": ["null", "null|1", "a", "a|1", "a (other stamp)", "b == a by contents", "c < a", "d > a", "a"], "stamp_a": cv::word_stamp(cv::rc_word(&ptrs[2].0)), "stamp_a2": cv::word_stamp(cv::rc_word(&ptrs[4].0))}));
     acc.finish(&mut r);
